@@ -69,7 +69,7 @@ class Gen:
         if k == 7:
             return f"({self.int_expr(depth + 1, ints)}) % {r.randint(2, 5)}"
         if k == 8:
-            return f"len({r.choice(LIST_VARS + SLIST_VARS)})"
+            return r.choice([f"len({r.choice(LIST_VARS + SLIST_VARS)})", "len(nest['inner'])", "nest['k']"])
         if k == 9:
             return f"sum({r.choice(LIST_VARS)})"
         if k == 10:
@@ -170,9 +170,12 @@ class Gen:
         if not no_fault and self.p("stmt_faults"):
             self.count("fault_stmt")
             return r.choice(["a = nope", "xs[99] = 1", "b = 1 % 0", "s = s + 1", "zz.append(1)", "c = d['zz']"])
-        k = r.randint(0, 12)
-        if getattr(self, "loop_depth", 0) > 0 and k in (7, 8, 11, 12):
+        k = r.randint(0, 13)
+        if getattr(self, "loop_depth", 0) > 0 and k in (7, 8, 11, 12, 13):
             k = 3      # no list growth inside loops: repeated visits would grow lists exponentially
+        if k == 13:
+            return r.choice([f"nest['inner'].append({self.int_expr(1, ints)})", f"nest['k'] = {self.int_expr(1, ints)}",
+                             f"nest['deep'] = {{'l': nest['deep']['l'] + [{r.randint(0, 3)}]}}"])
         if k <= 2:
             return f"{r.choice(INT_VARS)} = {self.int_expr(0, ints)}"
         if k == 3:
@@ -362,7 +365,8 @@ class Gen:
                 f"xs = [{', '.join(str(r.randint(0, 5)) for _ in range(r.randint(0, 3)))}]",
                 f"ys = [{', '.join(str(r.randint(0, 5)) for _ in range(r.randint(1, 3)))}]",
                 f"ws = [{', '.join(repr(self.word()) for _ in range(r.randint(0, 2)))}]",
-                f"d = {{'k': {r.randint(0, 5)}, 'm': {r.randint(0, 5)}}}", "hlog = []", "z = None"]]
+                f"d = {{'k': {r.randint(0, 5)}, 'm': {r.randint(0, 5)}}}", "hlog = []", "z = None",
+                f"nest = {{'inner': [{r.randint(0, 5)}], 'k': {r.randint(0, 5)}, 'deep': {{'l': []}}}}"]]
             items += [{"k": "stmt", "code": f"n_{n} = 0", "comment": None} for n in self.names + self.hook_names]
         items.append({"k": "stmt", "code": f"n_{name} = n_{name} + 1", "comment": None})
         if r.random() < self.f.get("probes", 0.5):
